@@ -23,6 +23,10 @@ from .tree import Tree
 from . import witness as W
 
 EVID = os.path.join(ROOT, 'evidence')
+# evidence is what a run against /repo itself found: runs against another tree (VERIF_REPO: scratch worktrees of the self-tests,
+# mutation campaigns, seeds being authored) write theirs next to the scratch files instead
+if os.environ.get('VERIF_REPO') and os.path.realpath(os.environ['VERIF_REPO']) != os.path.realpath('/repo'):
+    EVID = os.path.join(_unit.WORK, 'evidence_other_tree')
 REPLAY = os.path.join(ROOT, 'replay')
 KNOWN = os.path.join(ROOT, 'KNOWN_FINDINGS.txt')
 
